@@ -580,7 +580,7 @@ def jobs(tier, seed):
         out.append(dict(h="filter", filter="remove_duplicates_default", ds=ds))
         out.append(dict(h="filter", filter="remove_duplicates_fast", ds=ds))
         out.append(dict(h="filter", filter="custom", ds=ds))
-        for p in ([0.0, 10.0, 50.0, 100.0] if q else [0.0, 10.0, 25.0, 50.0, 90.0, 100.0]):
+        for p in ([0.0, 10.0, 50.0, 100.0] if q else [float(x) for x in range(0, 101, 5)] + [1.0, 12.5, 33.3, 66.7, 99.0, 99.9]):
             out.append(dict(h="filter", filter="cut_percentile_shortest", ds=ds, p=p))
     for ds in (["dups", "chain", "short"] if q else ["dups", "chain", "short", "equal_lengths", "perc3", "dfs2"]):
         out.append(dict(h="filter", filter="remove_duplicates", ds=ds, max_seconds=3300))
@@ -606,7 +606,7 @@ META = dict(
         quick="filter parameters symbolic integers (min_length, min_distance, max_count in [-1/0, max+2]; both duplicate thresholds symbolic or None) over 5 concrete "
               "datasets built at check time (gen_dfs 4x4 x7, gen_dfs_percolation 3x3 x8, hand-built 3x3 sets with exact/near duplicates at first/middle/last position, "
               "all-equal lengths, length-1 solutions); percentile in {0,10,50,100}; filter sequences of length 2 and 3 (incl. the same filter twice in a row with identical arguments) through from_config with two symbolic parameters",
-        thorough="7 datasets, percentile in {0,10,25,50,90,100}, three sequences, duplicate thresholds on 6 datasets",
+        thorough="7 datasets, percentile in {0,5,...,100} and {1,12.5,33.3,66.7,99,99.9}, five sequences, duplicate thresholds on 6 datasets",
     ),
     degenerate=dict(sequence="parameters forked over their range (the config-driven entry point renders them to JSON text)", cut_percentile_shortest="percentile is a concrete grid (np.percentile is C code)", remove_duplicates_fast="no parameter", meta="no symbolic input"),
     stubs=["none: the filters run on real numpy; only the integer parameters are symbolic objects"],
